@@ -49,7 +49,10 @@ def floors_for(feats):
 
 def methods_of(ctx, ty):
     pre = ty + "::"
-    return {p[len(pre):]: b for p, b in ctx.fb.bodies.items() if p.startswith(pre) and b.kind == "AssocFn" and "::" not in p[len(pre):]}
+    # (the methods the rules are about are the type's API; a private generic method that a
+    # refactoring put behind them - fresh, looked through - is not an entry point of its own)
+    fresh = getattr(ctx.fb, "fresh_paths", set())
+    return {p[len(pre):]: b for p, b in ctx.fb.bodies.items() if p.startswith(pre) and b.kind == "AssocFn" and "::" not in p[len(pre):] and not (b.d.get("generics") and not (b.reachable() and b.is_pub()) and (p in fresh or any(q.startswith(p + "::<") for q in fresh)))}
 
 
 def peel_after(t, se=None, bb=None):
@@ -132,7 +135,11 @@ def reader_rule(ctx, rep, half, name, b, expected_reads, helper_names, allow_sec
         bty = None
         if bl is not None and bl[0] == "local":
             bty = body.local_ty(bl[1])
-        buf_ok = bty is not None and bty.k == "array" and bty.len == want_len and buf_old is not None and strip(buf_old)[0] == "repeat"
+        bo_ = strip(buf_old) if buf_old is not None else ("?",)
+        # a fresh array: `[0; N]` or `<[u8; N]>::default()` (what it held does not matter - read_exact
+        # fills all N bytes or fails - but it must be a new local of exactly the header's length)
+        fresh_arr = bo_[0] == "repeat" or (util.is_call(bo_) and "std::default::Default for [T; " in bo_[1] and not bo_[2])
+        buf_ok = bty is not None and bty.k == "array" and bty.len == want_len and fresh_arr
         rep.check(rd_ok and buf_ok, "reader", fn, "read%d-buffer" % k, "read_exact(reader, &mut [0u8; %d])" % want_len, "read %d does not fill a fresh local [u8; %d] from the reader parameter (buffer type %s)" % (k, want_len, bty.s if bty else "?"), body.loc(bb))
         # (iii) cipher untouched when the read can fail
         st = se.in_state.get(bb, {}).get(self_root, self_root)
@@ -188,6 +195,23 @@ def reader_rule(ctx, rep, half, name, b, expected_reads, helper_names, allow_sec
         v = util.unwrap_try(se, a[1])
         good = a[0] == ("mutref", 0) and v[0] == "after" and strip(v[1]) == strip(first) and v[2] == 1
         desc = "%s(self, bytes just read)" % i["name"].split("::")[-1]
+    if not helper_calls and len(reads) == 1:
+        # the typed helper spelled out (a generic private helper was looked through): the raw
+        # in-place decrypt on exactly the bytes just read, then the header's own from_array of
+        # them, returned in Ok - which is what the typed helper is decided to be
+        first = se.term_info[reads[0]]["term"]
+        fa = [i for _, i in sorted(se.term_info.items()) if i.get("k") == "call" and i["name"].endswith("Header::from_array")]
+        raw = [i for _, i in sorted(se.term_info.items()) if i.get("k") == "call" and i["name"] == half + "::decrypt"]
+        if len(fa) == 1 and len(raw) == 1:
+            v = strip(fa[0]["args"][0])
+            la0 = raw[0]["locargs"][0]
+            recv_ok = la0[0] == "ref" and strip(la0[1]) == ("param", 1) or la0 == ("ref", self_root, True)
+            chain = v[0] == "after" and strip(v[1]) == strip(raw[0]["term"]) and v[2] == 1 and strip(v[3])[0] == "after" and strip(strip(v[3])[1]) == strip(first) and strip(v[3])[2] == 1
+            kind_ok = ("Server" in fa[0]["name"]) == ("server" in name)
+            oks = [se.assigns[(bi, si)][1] for bi, si, s_ in util.blocks_constructing(body, "std::result::Result", "Ok")]
+            ret_ok = len(oks) == 1 and strip(oks[0][4][0]) == strip(fa[0]["term"])
+            good = recv_ok and chain and kind_ok and ret_ok
+            desc = "Ok(%s(self.decrypt(bytes just read)))" % fa[0]["name"].split("::")[-2] if good else "raw decrypt on self %s, of the bytes just read then from_array %s, header kind %s, returned in Ok %s" % (recv_ok, chain, kind_ok, ret_ok)
     rep.check(good, "reader", fn, "helper-gets-read-bytes", desc, "the typed helper does not receive exactly the buffer filled by read_exact: " + desc, body.loc())
 
 
@@ -437,7 +461,8 @@ def check(ctx, rep):
         # the Wrath server header's wire layout (4 or 5 bytes) is decided by C10's encoder /
         # decoder rules; "same bytes as the raw operation on the wire layout" needs them
         from rules import c10
-        c10.check(ctx, util.Refile(rep, "wrath-server-layout", {"encoder", "decoder", "stream-step"}))
+        if not isinstance(rep, util.Refile):    # (C10 re-files this module's reader rules: no ping-pong)
+            c10.check(ctx, util.Refile(rep, "wrath-server-layout", {"encoder", "decoder", "stream-step"}))
 
 
 def wrath_reader_tail(ctx, rep, half, b):
